@@ -124,6 +124,14 @@ func src(n ast.Node) string {
 	return sb.String()
 }
 
+func quoteAll(xs []string) string {
+	var q []string
+	for _, x := range xs {
+		q = append(q, strconv.Quote(x))
+	}
+	return strings.Join(q, ", ")
+}
+
 func main() {
 	repo := "/repo"
 	outLean := "/verif/lean/GohtVerif/Gen/Facts.lean"
@@ -618,6 +626,105 @@ func main() {
 			return true
 		})
 		defStrs("defaultSkipDirs", skip)
+	}
+	{
+		// `goht generate`: extensions, skip prefixes, the suffix trimmed/added to pair outputs with templates,
+		// what a directory is compared by, and every call that mutates the file system
+		consts := map[string]string{}
+		for _, d := range genCmd.Decls {
+			if gd, ok := d.(*ast.GenDecl); ok && gd.Tok == token.CONST {
+				for _, sp := range gd.Specs {
+					vs := sp.(*ast.ValueSpec)
+					for i, n := range vs.Names {
+						if i < len(vs.Values) {
+							if bl, ok := vs.Values[i].(*ast.BasicLit); ok && bl.Kind == token.STRING {
+								v, _ := strconv.Unquote(bl.Value)
+								consts[n.Name] = v
+							}
+						}
+					}
+				}
+			}
+		}
+		if consts["GohtFileExtension"] == "" || consts["GeneratedFileExtension"] == "" {
+			missing = append(missing, "generate extensions")
+		}
+		defBytes("genGohtExt", consts["GohtFileExtension"])
+		defBytes("genOutExt", consts["GeneratedFileExtension"])
+		var prefixes, trims, adds, muts, dirCmp []string
+		wd := funcDecl(genCmd, "walkDir")
+		if wd == nil {
+			missing = append(missing, "walkDir")
+		} else {
+			ast.Inspect(wd, func(n ast.Node) bool {
+				if ifs, ok := n.(*ast.IfStmt); ok && src(ifs.Cond) == "entry.IsDir()" {
+					ast.Inspect(ifs.Body, func(m ast.Node) bool {
+						switch x := m.(type) {
+						case *ast.CallExpr:
+							if src(x.Fun) == "strings.HasPrefix" && len(x.Args) == 2 {
+								if bl, ok := x.Args[1].(*ast.BasicLit); ok {
+									v, _ := strconv.Unquote(bl.Value)
+									prefixes = append(prefixes, v)
+								}
+								dirCmp = append(dirCmp, src(x.Args[0]))
+							}
+						case *ast.BinaryExpr:
+							if x.Op == token.EQL && (src(x.X) == "skipDir" || src(x.Y) == "skipDir") {
+								o := src(x.Y)
+								if o == "skipDir" {
+									o = src(x.X)
+								}
+								dirCmp = append(dirCmp, o)
+							}
+						case *ast.AssignStmt:
+							if len(x.Lhs) == 1 && len(x.Rhs) == 1 {
+								dirCmp = append(dirCmp, src(x.Lhs[0])+":="+src(x.Rhs[0]))
+							}
+						}
+						return true
+					})
+					return false
+				}
+				if c, ok := n.(*ast.CallExpr); ok && src(c.Fun) == "strings.TrimSuffix" && len(c.Args) == 2 {
+					if bl, ok := c.Args[1].(*ast.BasicLit); ok {
+						v, _ := strconv.Unquote(bl.Value)
+						trims = append(trims, v)
+					}
+				}
+				if b, ok := n.(*ast.BinaryExpr); ok && b.Op == token.ADD && src(b.X) == "entryName" {
+					if bl, ok := b.Y.(*ast.BasicLit); ok {
+						v, _ := strconv.Unquote(bl.Value)
+						adds = append(adds, v)
+					}
+				}
+				return true
+			})
+		}
+		ast.Inspect(genCmd, func(n ast.Node) bool {
+			if c, ok := n.(*ast.CallExpr); ok {
+				f := src(c.Fun)
+				if strings.HasPrefix(f, "os.") {
+					switch strings.TrimPrefix(f, "os.") {
+					case "Stat", "Lstat", "IsNotExist", "ReadFile", "Getwd":
+					default:
+						muts = append(muts, src(c))
+					}
+				}
+			}
+			return true
+		})
+		defStrs("genSkipPrefixes", prefixes)
+		tr := ""
+		if len(trims) == 1 && len(adds) == 1 && trims[0] == adds[0] {
+			tr = trims[0]
+		} else {
+			missing = append(missing, "generate trim/add suffix")
+		}
+		defBytes("genTrimSuffix", tr)
+		fmt.Fprintf(&out, "def genFsMutations : List String := [%s]\n", quoteAll(muts))
+		facts["genFsMutations"] = muts
+		fmt.Fprintf(&out, "def genDirComparedBy : List String := [%s]\n", quoteAll(dirCmp))
+		facts["genDirComparedBy"] = dirCmp
 	}
 	var overridden []string
 	for _, d := range pserver.Decls {
